@@ -66,7 +66,7 @@ def run(rep, tier):
                 cases.append(to_case(len(cases) + 1, cs))
     rng = random.Random(vlib.seed())
     rng.shuffle(cases)
-    cases = cases[:(900 if thorough else 40)]
+    cases = cases[:(600 if thorough else 40)]
     for i, c in enumerate(cases):
         c["id"] = i + 1
         rep.case(key=json.dumps([c["base"], c["ctor"]], sort_keys=True), nontrivial=True)
